@@ -1,6 +1,7 @@
 package core
 
 import (
+	"sync/atomic"
 	"bufio"
 	"crypto/sha1"
 	"encoding/json"
@@ -28,6 +29,9 @@ type Family struct {
 	Recorded bool
 	// ClassifyCrashes: the class of a crash always comes from Classify (in the parent).
 	ClassifyCrashes bool
+	// NeedCompared: a design configuration none of whose cases was non-trivial (NT) for this family says the
+	// configuration has become vacuous (every exported program an error case, say): trouble of the machinery.
+	NeedCompared bool
 }
 
 // Verdict is a child's answer for one request.
@@ -129,6 +133,7 @@ func (r *Run) handle(f *Family, res Result, col *Collector) {
 	r.Count(1, n)
 	if v.NT {
 		r.NT(res.Req)
+		atomic.AddInt64(&r.ntVerdicts, 1)
 	}
 	if v.Sample != nil {
 		r.Sample(v.Sample)
@@ -197,12 +202,23 @@ func (r *Run) DirectionAC(fam string, o TLCOpts, keep func(i int64, body string)
 			}
 		}
 	}
+	nt0 := atomic.LoadInt64(&r.ntVerdicts)
 	res, err := RunTLC(r.SpecDir(), r.Out, o)
 	pool.Close()
+	nt := atomic.LoadInt64(&r.ntVerdicts) - nt0
 	r.mu.Lock()
 	r.Extra["crash_monitored"] = toInt(r.Extra["crash_monitored"]) + int(pool.Executed)
 	r.Extra["cases_exported"] = toInt(r.Extra["cases_exported"]) + int(i)
+	byCfg, _ := r.Extra["nontrivial_by_cfg"].(map[string][2]int64)
+	if byCfg == nil {
+		byCfg = map[string][2]int64{}
+	}
+	byCfg[o.Cfg] = [2]int64{byCfg[o.Cfg][0] + pool.Executed, byCfg[o.Cfg][1] + nt}
+	r.Extra["nontrivial_by_cfg"] = byCfg
 	r.mu.Unlock()
+	if f.NeedCompared && pool.Executed >= 20 && nt == 0 {
+		r.Infra(fmt.Sprintf("%s/%s: vacuous - none of the %d executed cases was one on which the comparison applies", o.Module, o.Cfg, pool.Executed))
+	}
 	if r.CheckTLC(o.Module+"/"+o.Cfg, res, err) {
 		r.AddTLC(res)
 		if i == 0 {
